@@ -104,7 +104,7 @@ def e_step(data, means):
     )
 
 
-def m_step(stats, n_samples):
+def m_step(stats, n_samples, previous_means=None):
     """Computes the cluster centers and average minimum distance.
 
     Parameters
@@ -114,6 +114,9 @@ def m_step(stats, n_samples):
         on each chunk of data.
     n_samples : int
         The total number of samples.
+    previous_means : array-like, shape (n_clusters, n_features), optional
+        The cluster centers used in the :any:`e_step`. A cluster that received
+        no sample keeps its previous center.
 
     Returns
     -------
@@ -133,7 +136,16 @@ def m_step(stats, n_samples):
         average_min_distance += average_
     average_min_distance /= n_samples
 
-    means = first_order_statistics / zeroeth_order_statistics[:, None]
+    counts = zeroeth_order_statistics[:, None]
+    if previous_means is None:
+        means = first_order_statistics / counts
+    else:
+        # an empty cluster has no mean: keep its previous center
+        means = np.where(
+            counts > 0,
+            first_order_statistics / np.maximum(counts, 1),
+            previous_means,
+        )
     return means, average_min_distance
 
 
@@ -168,8 +180,10 @@ def reduce_indices_means_vars(stats):
     n_clusters = len(means_sum)
     weights_count = np.bincount(closest_centroid_indices, minlength=n_clusters)
     weights = weights_count / weights_count.sum()
-    means = means_sum / weights_count[:, None]
-    variances = (variances_sum / weights_count[:, None]) - (means**2)
+    # an empty cluster gets a weight and a variance of zero (instead of 0/0)
+    safe_count = np.maximum(weights_count, 1)[:, None]
+    means = means_sum / safe_count
+    variances = (variances_sum / safe_count) - (means**2)
 
     return variances, weights
 
@@ -352,12 +366,12 @@ class KMeansMachine(BaseEstimator):
                     dask.delayed(e_step)(xx, means=self.centroids_) for xx in X
                 ]
                 self.centroids_, self.average_min_distance = dask.compute(
-                    dask.delayed(m_step)(stats, n_samples)
+                    dask.delayed(m_step)(stats, n_samples, self.centroids_)
                 )[0]
             else:
                 stats = [e_step(X, means=self.centroids_)]
                 self.centroids_, self.average_min_distance = m_step(
-                    stats, n_samples
+                    stats, n_samples, self.centroids_
                 )
 
             distance = self.average_min_distance
